@@ -6,7 +6,9 @@
 //!   harness run <engine>            stdin: cases, stdout: answers
 //!   harness gen <prop> <seed> <tier>  stdout: cases
 //!   harness oracle <prop>           stdin: "case | answer" lines, stdout: failing clauses
+mod consts_gen;
 mod eng_addr;
+mod eng_codec;
 mod eng_mach;
 mod eng_pte;
 mod eng_tbl;
@@ -17,6 +19,13 @@ mod softcpu;
 mod util;
 
 use util::*;
+
+/// the number inside an `Msr` (its field is private): taken from its Debug output "Msr(<n>)"
+#[allow(dead_code)]
+pub fn msr_number(m: &x86_64::registers::model_specific::Msr) -> u64 {
+    let s = format!("{:?}", m);
+    s.trim_start_matches("Msr(").trim_end_matches(')').parse().unwrap()
+}
 
 fn main() {
     let args: Vec<String> = std::env::args().collect();
@@ -29,6 +38,7 @@ fn main() {
                 "pte" => eng_pte::run,
                 "mach" => eng_mach::run,
                 "tbl" => eng_tbl::run,
+                "codec" => eng_codec::run,
                 _ => panic!("unknown engine"),
             };
             for_each_line(|l| fmt_out(&f(&parse_line(l))));
@@ -42,7 +52,7 @@ fn main() {
             let mut out = std::io::BufWriter::with_capacity(1 << 16, stdout.lock());
             match prop {
                 "C03" | "C04" | "C05" | "C06" | "C07" => gen_addr::gen(prop, seed, thorough, &mut out),
-                "C08" | "C12" | "C14" | "C15" => gen_tbl::gen(prop, seed, thorough, &mut out),
+                "C08" | "C12" | "C14" | "C15" | "C19" => gen_tbl::gen(prop, seed, thorough, &mut out),
                 "C11" | "C16" | "C17" | "C18" => gen_mach::gen(prop, seed, thorough, &mut out),
                 _ => panic!("unknown property"),
             }
@@ -51,9 +61,14 @@ fn main() {
             let prop = args[2].as_str();
             match prop {
                 "C03" | "C04" | "C05" | "C06" | "C07" => gen_addr::oracle(prop),
-                "C08" | "C12" | "C14" | "C15" => gen_tbl::oracle(prop),
+                "C08" | "C12" | "C14" | "C15" | "C19" => gen_tbl::oracle(prop),
                 "C11" | "C16" | "C17" | "C18" => gen_mach::oracle(prop),
                 _ => panic!("unknown property"),
+            }
+        }
+        Some("dumpconsts") => {
+            for (n, v) in consts_gen::consts() {
+                println!("{} {}", n, v);
             }
         }
         Some("selftest") => {
